@@ -3,7 +3,6 @@ package c15
 
 import (
 	"fmt"
-	"os"
 	"strings"
 	"sync"
 	"testing"
@@ -893,7 +892,6 @@ func TestC15(t *testing.T) {
 	c := h.New(t, "C15")
 	defer c.Finish()
 	c.Rule("total: byte strings (random bytes, token soups over the full token vocabulary incl. unterminated strings/comments/NUL/non-UTF-8, truncations/deletions/insertions/duplications/splices of generated valid programs, bracket nests up to 1500 deep, valid programs); non-trivial = >= 3 whitespace-separated chunks and (parses, or rejected at a position other than 1:1). concurrent: batches parsed from 8 goroutines vs alone. type-expr inputs: prefixes, a name or struct literal, member selectors in every combination inside new/make/composite literals; foreign-rune inputs: valid texts with 1-3 runes that start no token (by class, incl. the 128 code points from U+E000 that coincide with the parser's token numbers). compose: pairs of generated valid programs (incl. empty, comment-only, trailing ';', leading blank lines; three in eight end without a terminator: a last statement from a list covering every kind of final token and production, followed by nothing, blanks or a comment); non-trivial = both have >= 1 statement and A spans >= 2 lines. distinct by text")
-	if os.Getenv("C15_DEVONLY") == "" { // DEVONLY-BEGIN
 	h.Run(c, "total", c.N(52500, 175000), genInput, oracleTotal)
 	if c.Thorough() {
 		largeEvery = 240
@@ -902,9 +900,8 @@ func TestC15(t *testing.T) {
 	h.Run(c, "compose", c.N(12000, 50000), genPair, oracleCompose)
 	c.Rule("words (words_test.go): 2-4 texts joined with newlines one after the other, the compositional clause judged at every step (the text so far and the next part each parse on their own), and the first sentence of the statement for every parse made. Parts: statements from templates whose identifier slots hold words that resemble keywords - each of the 32 keywords with a suffix (elsewhere, if_1, inX, nil0), with a prefix, followed by another keyword, in another capitalisation, cut short or with a letter doubled, keywords of other languages - with such a word as the first token of the statement in two thirds of them, after optional blank lines / indentation / a comment and before an optional terminator or comment; a statement from the last-statement list followed by a line that starts with such a word; generated programs with a third of their identifiers renamed to such words; generated programs as they are. non-trivial = every step joined two texts of >= 1 statement; distinct by text")
 	h.Run(c, "words", c.N(8000, 30000), genWords, oracleWords)
-	} // DEVONLY-END
 	c.Rule("again (again_test.go): a probe text (1-3 parts: a statement holding a map or array literal whose keys / elements are drawn from a pool of 1-6 constants so that they repeat - all three map forms, 1-12 entries, everything constant in three of five - , statements with names, numbers and strings of its own, a generated program, any input of the total sub-check) is parsed, parsed 5 more times at once, and parsed again after each of 1-3 groups of other texts; a group brings N spellings no parse of the process has seen before (names, numbers, strings or all three; N up to 50, around a power of two from 32 to 4096, 1100-2600 or 2600-5000), in one text or spread over up to 600; the oldest of the other texts is parsed again at the end as well. Every parse of a text must give the result of its first parse (tree with positions, or error). non-trivial = the probe parses, has >= 3 chunks and N >= 1; distinct by probe and groups")
-	h.Run(c, "again", c.N(260, 2400), genAgain, oracleAgain)
+	h.Run(c, "again", c.N(260, 160), genAgain, oracleAgain)
 	c.Rule("literals (again_test.go): 2-16 texts of 64-512 literal spellings each, no spelling in two texts (decimal, hexadecimal, binary, fraction and exponent spellings, every fifth with a sign, strings mixed in for one kind in four; as array elements, right-hand sides, map values, operands or arguments), one goroutine per text, 8-24 rounds, goroutine g in round r parses text (g+r) mod G; every tree must be the tree (literal values included) the text gives alone, during and after. distinct by description")
-	h.Run(c, "literals", c.N(40, 360), genLitBatch, oracleLiterals)
+	h.Run(c, "literals", c.N(40, 16), genLitBatch, oracleLiterals)
 }
